@@ -88,6 +88,31 @@ def _dotted(n: ast.AST) -> str | None:
     return None
 
 
+_MODDEFS: dict[tuple[str, str], Any] = {}
+
+
+def _module_definition(globs: dict, name: str) -> 'ast.expr | None':
+    """The right-hand side of the one module-level `name = (…)` of the module these globals belong to, if it is a
+    tuple whose elements are names, attribute paths and literals."""
+    import sys
+
+    mod = sys.modules.get(globs.get('__name__', ''))
+    key = (globs.get('__name__', ''), name)
+    if key not in _MODDEFS:
+        found = None
+        try:
+            tree = ast.parse(inspect.getsource(mod)) if mod is not None else None
+        except (OSError, TypeError, SyntaxError):
+            tree = None
+        if tree is not None:
+            defs = [st.value for st in tree.body if isinstance(st, (ast.Assign, ast.AnnAssign)) and st.value is not None
+                    and any(isinstance(t, ast.Name) and t.id == name for t in (st.targets if isinstance(st, ast.Assign) else [st.target]))]
+            if len(defs) == 1 and isinstance(defs[0], ast.Tuple) and all(_dotted(e) is not None or isinstance(e, ast.Constant) for e in defs[0].elts):
+                found = defs[0]
+        _MODDEFS[key] = found
+    return _MODDEFS[key]
+
+
 LEAN_T = {'int': 'Int', 'bool': 'Bool', 'err': 'Option (Int × Int)'}  # err: a NotifyError(code, subcode, …) or None
 NONE_VAL = {'bool': 'false', 'int': '0', 'none': '()', 'int*int': '(0, 0)'}
 RET_T = {'bool': 'Bool', 'int': 'Int', 'none': 'Unit', 'int*int': '(Int × Int)'}
@@ -125,6 +150,12 @@ class _Tr:
                     if isinstance(g, slice) and all(x is None or type(x) is int for x in (g.start, g.stop, g.step)):
                         c = lambda x: None if x is None else ast.Constant(value=x)  # noqa: E731
                         return ast.copy_location(ast.Slice(lower=c(g.start), upper=c(g.stop), step=c(g.step)), n)
+                    if isinstance(g, tuple):
+                        # a module-level tuple of named constants (`_UNCONNECTED_STATES = (FSM.IDLE, FSM.ACTIVE)`): what it
+                        # was defined as, when that is a tuple of names, attribute paths and literals
+                        d = _module_definition(globs, n.id)
+                        if d is not None:
+                            return ast.copy_location(_copy.deepcopy(d), n)
                 return n
 
         import copy
